@@ -13,6 +13,11 @@ RT_ASSUMPTIONS = [
     "pinned interpreter (CPython 3.12.1 asyncio); trees of depth <= 3 and <= ~16 jobs (<= 5 members per scheduler, occasionally up to 9)",
     "set iteration order and same-instant timer order are generated inputs "
     "(hash keys / tie keys), not all interleavings of an arbitrary event loop",
+    "generated dimensions beyond the tree itself (dim:* classes in coverage.classes): odd "
+    "labels, builtin exception classes, odd return values, attributes assigned after "
+    "construction, a Watch, inspection calls during the run, graph queried and re-wired "
+    "before the run, schedulers filled after wiring, second run of the same objects, flat "
+    "schedulers of 12..300 members",
 ]
 
 
@@ -33,6 +38,21 @@ def shape_labels(case, trace, res):
             njobs += 1
     res.label('outcome:' + trace.outcome['how'], 'depth:%d' % depth,
               'windowed' if windows else 'unwindowed')
+    for flag in ('inspect', 'prelude', 'latefill'):
+        if case.get(flag):
+            res.label('dim:' + flag)
+    if getattr(trace, 'rerun', False):
+        res.label('dim:second-run-of-the-same-objects')
+    if len(case.get('members', ())) >= 12:
+        res.label('dim:wide(%s)' % ('>=257' if len(case['members']) >= 257 else
+                                    '>=33' if len(case['members']) >= 33 else '12..32'))
+    dims = set()
+    for sp, _, _ in S_iter(case):
+        for key in ('late_attrs', 'watch', 'label', 'exc', 'ret'):
+            if sp.get(key) not in (None, False):
+                dims.add(key)
+    for key in sorted(dims):
+        res.label('dim:' + key)
     return depth, windows, njobs
 
 
